@@ -6,6 +6,8 @@ CONSTANTS
   MaxOps = 2
   Notifs <- NotifsA
   MaxNotif = 1
+  MaxDup = 0
+  DistinctPatterns = FALSE
   Bug = "cmdId"
   OneQueryPerCmd = FALSE
 INVARIANT TypeOK
